@@ -419,8 +419,70 @@ def run(ctx):
         hunt_one(ctx, name, o, d, stats, h)
     ctx.coverage["hunter"] = dict(stats)
     ctx.coverage["edit_op_histogram"] = dict(op_hist)
+    history_probe(ctx, rng, docs)
     for name, o, d, h in docs[-3:]:
         ctx.sample({"name": name, "opts": o, "doc": json.dumps(P.doc_to_json(d), default=str)[:300], "history": h})
+
+
+HISTORY_SCRIPT = r"""
+import sys, json, copy, logging
+logging.disable(logging.CRITICAL)
+import mappyfile
+from mappyfile import utils
+from corr import printer as P
+cases = json.load(sys.stdin)
+out = []
+for c in cases:
+    d = P.doc_from_json(c["doc"])
+    ty = d.get("__type__") if isinstance(d, dict) else None
+    # the FIRST use of this type's schema in this process is a versioned one
+    try:
+        mappyfile.validate(copy.deepcopy(d), version=c["version"])
+    except Exception:
+        pass
+    try:
+        if ty:
+            utils.create(ty, version=c["version"])
+    except Exception:
+        pass
+    try:
+        out.append(["text", mappyfile.dumps(d, **c["opts"])])
+    except Exception as ex:
+        out.append(["exc", type(ex).__name__])
+json.dump(out, sys.stdout)
+"""
+
+
+def history_probe(ctx, rng, docs):
+    """The printed text may not depend on what the process did before: a fresh interpreter that first validates the
+    dictionary against a VERSIONED schema (and creates a default object of that version) and only then prints it must
+    write what this long-running process writes."""
+    import subprocess, mappyfile
+    from checklib import build
+    pool = [x for x in docs if isinstance(x[2], dict) and x[3] is None]
+    sel = rng.sample(pool, min(len(pool), ctx.budget(30, 300)))
+    cases = [{"doc": P.doc_to_json(d), "opts": o, "version": rng.choice([5.0, 6.0, 7.0, 7.6, 8.0, 8.2])} for _, o, d, _ in sel]
+    env = dict(os.environ, PYTHONPATH=os.pathsep.join([build.REPO, os.path.join(ROOT, "tools")]), PYTHONHASHSEED="0", PYTHONDONTWRITEBYTECODE="1")
+    try:
+        p = subprocess.run(["/venv/bin/python", "-c", HISTORY_SCRIPT], input=json.dumps(cases, default=str).encode(), env=env,
+                           stdout=subprocess.PIPE, stderr=subprocess.PIPE, timeout=600)
+        outs = json.loads(p.stdout.decode())
+    except Exception as ex:
+        ctx.obligation("history probe (fresh interpreter: versioned validate/create first, then dumps)", False, "probe failed to run: %s" % str(ex)[:300])
+        return
+    n_bad = 0
+    for c, (name, o, d, _), r in zip(cases, sel, outs):
+        try:
+            here = ["text", mappyfile.dumps(P.doc_from_json(json.loads(json.dumps(c["doc"], default=str))), **o)]
+        except Exception as ex:
+            here = ["exc", type(ex).__name__]
+        ctx.note_case(("history-probe", name, json.dumps(c["opts"], sort_keys=True, default=str), c["version"]))
+        if here != r:
+            n_bad += 1
+            if n_bad <= 3:
+                ctx.violation("print-depends-on-history:versioned-first", "dumps writes a different text in a fresh process that first used the schema of version %s (validate / create) than in this process"
+                              % c["version"], {"doc": c["doc"], "opts": o, "version": c["version"], "fresh": r[1][:600] if r[0] == "text" else r, "here": here[1][:600] if here[0] == "text" else here})
+    ctx.count("history_probe_documents", len(cases))
 
 
 def replay(ctx, body):
